@@ -70,10 +70,9 @@ theorem key_total (pw salt : Bytes) (n r p k : Int) (hkI : k < 2 ^ 63) :
 theorem scryptSpec_impl_eq_rfc (pw salt : Bytes) (m r p dkLen : Nat) (hm : 1 ≤ m) :
     scryptSpec false pw salt (2 ^ m) r p dkLen = scryptSpec true pw salt (2 ^ m) r p dkLen := by
   unfold scryptSpec
-  have : (fun c => if false = true then some (romixRfc (2 ^ m) (blksOfBytes c)) else smixI (2 ^ m) (blksOfBytes c))
-      = (fun c => if true = true then some (romixRfc (2 ^ m) (blksOfBytes c)) else smixI (2 ^ m) (blksOfBytes c)) := by
-    funext c; simp [smixI_eq_rfc m hm]
-  simp only [this]
+  have : romixBytes false (2 ^ m) = romixBytes true (2 ^ m) := by
+    funext c; simp [romixBytes, smixI_eq_rfc m hm]
+  rw [this]
 
 /-- every accepted N is a power of two ≥ 2, so the theorem above applies to all accepted inputs -/
 theorem accepted_pow2 {n r p k : Int} (hkI : k < 2 ^ 63) (h : validate n r p k = .accept) :
